@@ -37,9 +37,9 @@ func lightTransfers(w *world.World, o menuOpts) []world.Action {
 
 func c02Profiles(tier Tier) []*explore.Profile {
 	o := menuOpts{thorough: tier.Thorough(), shards: 2}
-	depth := 3
+	depth := 4
 	if tier.Thorough() {
-		depth = 4
+		depth = 5
 	}
 	orc := []explore.Oracle{&supplyOracle{property: "C02"}}
 	supply := &explore.Profile{
@@ -82,9 +82,9 @@ func C02(tier Tier) int {
 
 func c04Profiles(tier Tier) []*explore.Profile {
 	o := menuOpts{thorough: tier.Thorough(), shards: 2}
-	depth := 3
+	depth := 4
 	if tier.Thorough() {
-		depth = 4
+		depth = 5
 	}
 	p := &explore.Profile{
 		Name: "freeze", EnvCfg: ledgerEnv(2), Seeds: seedsOf("mixed", "frozen"), Depth: depth, Deadline: tierDeadline(tier),
@@ -171,9 +171,9 @@ func supplyMenuLight(w *world.World, o menuOpts) []world.Action {
 
 func c07Profiles(tier Tier) []*explore.Profile {
 	o := menuOpts{thorough: tier.Thorough(), shards: 2}
-	depth := 4
+	depth := 5
 	if tier.Thorough() {
-		depth = 6
+		depth = 7
 	}
 	p := &explore.Profile{
 		Name: "nonce", EnvCfg: ledgerEnv(2), Depth: depth, Deadline: tierDeadline(tier), WithGhost: true,
